@@ -8,6 +8,8 @@ import (
 	"fmt"
 	"sync"
 
+	"github.com/efficientgo/core/errors"
+
 	"github.com/thanos-community/promql-engine/execution/model"
 	"github.com/thanos-community/promql-engine/verifhook"
 
@@ -80,6 +82,13 @@ func (c *concurrencyOperator) Next(ctx context.Context) ([]model.StepVector, err
 func (c *concurrencyOperator) pull(ctx context.Context) {
 	defer verifhook.Go("conc.pull", 0)()
 	defer close(c.buffer)
+	// A panic below this operator is that query's error, not the end of the
+	// process.
+	defer func() {
+		if e := recover(); e != nil {
+			c.buffer <- maybeStepVector{err: recoverToError(e)}
+		}
+	}()
 
 	for {
 		verifhook.Yield("conc.pull.loop")
@@ -104,6 +113,15 @@ func (c *concurrencyOperator) pull(ctx context.Context) {
 			c.buffer <- maybeStepVector{stepVector: r}
 			verifhook.Yield("conc.pull.sent")
 		}
+	}
+}
+
+func recoverToError(e any) error {
+	switch err := e.(type) {
+	case error:
+		return errors.Wrap(err, "unexpected error")
+	default:
+		return errors.Newf("unexpected error: %v", e)
 	}
 }
 
